@@ -739,7 +739,10 @@ func (ex *Exec) block(st *State, fr *Frame, b *ssa.BasicBlock, pred *ssa.BasicBl
 			ex.oblige(st, "invariant-entry", fmt.Sprintf("%s/loop%d.%s.entry", fr.key, ord, c.name()), c.Labels, g, c, ex.posOfBlock(b))
 		}
 		fr.cut[b] = true
-		fr.heldAtLoop = st.heldKeys()
+		if fr.heldAtLoopM == nil {
+			fr.heldAtLoopM = map[*ssa.BasicBlock][]string{}
+		}
+		fr.heldAtLoopM[b] = st.heldKeys()
 		// havoc
 		for _, ph := range phis {
 			nv := ex.symVal(st, ph.Type(), "phi."+ph.Comment)
@@ -808,7 +811,7 @@ func (ex *Exec) posOfBlock(b *ssa.BasicBlock) string {
 
 func (ex *Exec) checkHeldBalanced(st *State, fr *Frame, b *ssa.BasicBlock) {
 	a := strings.Join(st.heldKeys(), ",")
-	bb := strings.Join(fr.heldAtLoop, ",")
+	bb := strings.Join(fr.heldAtLoopM[b], ",")
 	if a != bb {
 		ex.notes[fmt.Sprintf("LOCK-IMBALANCE %s loop %d: held at entry {%s} at back edge {%s}", fr.key, loopOrdinal(b), bb, a)] = true
 	}
